@@ -103,6 +103,7 @@ def write_evidence(pid, tier, seed, results, wall, assumptions, explanation, tru
         cov.update(extra)
     ev = dict(property_id=pid, tier=tier, seed=seed, level="other", coverage=cov,
               assumptions=assumptions, wall_s=round(wall, 2), violations=violations)
-    os.makedirs(os.path.join(VERIF, "evidence"), exist_ok=True)
-    with open(os.path.join(VERIF, "evidence", pid + ".json"), "w") as f:
+    evdir = os.environ.get("VERIF_EVIDENCE_DIR") or os.path.join(VERIF, "evidence")  # seeded runs write elsewhere
+    os.makedirs(evdir, exist_ok=True)
+    with open(os.path.join(evdir, pid + ".json"), "w") as f:
         json.dump(ev, f, indent=1)
